@@ -160,3 +160,43 @@ Definition chk_esop_opt (n : nat) (fs : list (list N)) (and_cost xor_cost : Z) (
   | None => true
   | Some w => negb (esop_solution_ok n fs w) || Z.leb (esop_cost and_cost xor_cost ret) (esop_cost and_cost xor_cost w)
   end.
+
+(* ---- C09: text forms, directly from the property text (no kernel of the model is used).
+   Hex: max(1, 2^n/4) digits, most significant first, digit k (from the right) = bits 4k..4k+3 of the function;
+   binary: 2^n digits, most significant first. *)
+Definition spec_hex_width (n : nat) : nat := Nat.max 1 (Nat.pow 2 n / 4).
+Definition spec_digit_char (d : N) : N := if d <? 10 then 48 + d else 87 + d.
+Definition spec_nibble (t : list N) (k : nat) : N :=
+  fold_left (fun acc j => if val t (N.of_nat (4 * k + j)) then acc + 2 ^ N.of_nat j else acc) (seq 0 4) 0.
+Definition spec_to_hex (n : nat) (t : list N) : list N :=
+  map (fun k => spec_digit_char (spec_nibble t k)) (rev (seq 0 (spec_hex_width n))).
+Definition spec_to_bin (n : nat) (t : list N) : list N :=
+  map (fun k => if val t (N.of_nat k) then 49 else 48) (rev (seq 0 (Nat.pow 2 n))).
+(* decimal of a small number (n < 100 is all that occurs) *)
+Definition spec_dec (n : nat) : list N :=
+  let x := N.of_nat n in if x <? 10 then [48 + x] else [48 + x / 10; 48 + x mod 10].
+Definition spec_fmt (n : nat) (body : list N) : list N := [76; 117; 116] ++ spec_dec n ++ [40] ++ body ++ [41].
+Definition bytes_eqb (a b : list N) : bool := list_eqb N.eqb a b.
+
+(* parsing: Some v = must be accepted and denote the number v; None = must be rejected *)
+Definition spec_hexval (b : N) : option N :=
+  if (48 <=? b) && (b <=? 57) then Some (b - 48)
+  else if (97 <=? b) && (b <=? 102) then Some (b - 87)
+  else if (65 <=? b) && (b <=? 70) then Some (b - 55)
+  else None.
+Definition spec_parse_hex (n : nat) (s : list N) : option N :=
+  if negb (Nat.eqb (length s) (spec_hex_width n)) then None
+  else
+    match fold_left (fun (acc : option N) b => match acc, spec_hexval b with
+                                               | Some a, Some d => Some (16 * a + d)
+                                               | _, _ => None end) s (Some 0) with
+    | Some v => if v <? 2 ^ (2 ^ N.of_nat n) then Some v else None
+    | None => None
+    end.
+(* result of from_hex_string: res = None (Err) or Some table *)
+Definition chk_from_hex (n : nat) (s : list N) (res : option (list N)) : bool :=
+  match spec_parse_hex n s, res with
+  | None, None => true
+  | Some v, Some t => wfb n t && (bigN t =? v)
+  | _, _ => false
+  end.
